@@ -235,6 +235,9 @@ func (u *Unit) eval(e ast.Expr, env *Env) Value {
 	case *ast.FuncLit:
 		return u.closure(x, env)
 	case *ast.TypeAssertExpr:
+		if r, ok := u.poolGet(x, env); ok {
+			return r
+		}
 		xv := u.eval(x.X, env)
 		ty := u.Info.TypeOf(x.Type)
 		ok, v := u.typeAssert(env, xv, ty)
@@ -550,6 +553,10 @@ func (u *Unit) assignField(l *ast.SelectorExpr, sel *types.Selection, v Value, e
 	}
 	last := path[len(path)-1]
 	t := types.Unalias(cur.Ty)
+	if n, ok := t.(*types.Named); ok && n.Obj().Pkg() != nil && isOpaquePkg(n.Obj().Pkg().Path()) {
+		u.note("assignment to " + u.exprText(l) + " (field of an opaque library value) is not modelled")
+		return
+	}
 	if p, ok := t.Underlying().(*types.Pointer); ok {
 		si := u.structOf(p.Elem())
 		f := si.Fields[last]
@@ -1155,4 +1162,39 @@ func fpParams(s Sort) (int, int) {
 		return 8, 24
 	}
 	return 11, 53
+}
+
+// q.pool.Get().(*Node): trusted model of sync.Pool - the result is a non-nil object of the asserted type that the
+// structure does not reference (expressed through the ghost status map named by "opt poolfresh=<ghost>": status 0)
+func (u *Unit) poolGet(x *ast.TypeAssertExpr, env *Env) (Value, bool) {
+	call, ok := unparen(x.X).(*ast.CallExpr)
+	if !ok {
+		return Value{}, false
+	}
+	fn := calleeObj(u, unparen(call.Fun))
+	if fn == nil || fn.Pkg() == nil || fn.Pkg().Path() != "sync" || recvTypeName(fn) != "Pool" || fn.Name() != "Get" {
+		return Value{}, false
+	}
+	ty := u.Info.TypeOf(x.Type)
+	if u.sortOf(ty) != SRef {
+		return Value{}, false
+	}
+	r := u.D.Fresh("pooled", SRef)
+	env.assume(Not(Same(r, Term{"nil_Ref", SRef})))
+	u.assumeKnownRef(env, r)
+	gname := ""
+	if u.Block != nil {
+		gname = u.Block.Opts["poolfresh"]
+	}
+	if gname != "" {
+		if obj := u.ghosts[gname]; obj != nil {
+			env.assume(Same(Select(env.vars[obj], r), IntLit(0)))
+		}
+	}
+	if inv, ok := u.poolInvFor(env, Value{r, ty}); ok {
+		env.assume(inv)
+		u.D.Trust("sync.Pool: objects obtained by Get satisfy the pool invariant POOLINV_" + typeNameOf(ty) + " that is proved at every Put (and holds of New's zeroed objects)")
+	}
+	u.D.Trust("sync.Pool.Get().(*T) returns a non-nil *T that the data structure does not reference (only objects handed to Put, or made by New, come back)")
+	return Value{r, ty}, true
 }
